@@ -1,6 +1,8 @@
 package world
 
 import (
+	"sync"
+	"sync/atomic"
 	"bytes"
 	"context"
 	"fmt"
@@ -136,6 +138,28 @@ func shapePath(class string, k int) string {
 
 type idSetter func(acct string, key []byte)
 
+var (
+	createdMu   sync.Mutex
+	createdName []string
+	createdKey  [][]byte
+)
+
+func (a *APIServer) noteCreated(name string, key []byte) {
+	createdMu.Lock()
+	createdName = append(createdName, name)
+	createdKey = append(createdKey, append([]byte{}, key...))
+	createdMu.Unlock()
+}
+
+func (a *APIServer) lastCreated() (string, []byte) {
+	createdMu.Lock()
+	defer createdMu.Unlock()
+	if len(createdName) == 0 {
+		return "", nil
+	}
+	return createdName[len(createdName)-1], createdKey[len(createdKey)-1]
+}
+
 func (a *APIServer) shapeID(class string, rnd *rand.Rand, set idSetter) {
 	pk := a.B.PubKeys["k1"]
 	switch class {
@@ -156,6 +180,19 @@ func (a *APIServer) shapeID(class string, rnd *rand.Rand, set idSetter) {
 		set("W1/"+strings.Repeat("y", 50000), nil)
 	case "key-valid":
 		set("", pk)
+	case "acct-created", "key-created":
+		// an account created through Dirk during this run (falls back to a start-up account while there is none)
+		name, key := a.lastCreated()
+		switch {
+		case name == "" && class == "acct-created":
+			set("W1/a1", nil)
+		case name == "":
+			set("", pk)
+		case class == "acct-created":
+			set(name, nil)
+		default:
+			set("", key)
+		}
 	case "key-len1":
 		set("", pk[:1])
 	case "key-len47":
@@ -219,24 +256,8 @@ func orDefault(s, d string) string {
 	return s
 }
 
-// runFuzz sends every shape message over a real connection and probes liveness after each one.
-func (a *APIServer) runFuzz(ctx context.Context, msgs []FuzzMsg, log *Log) error {
-	conns := map[string]*grpc.ClientConn{}
-	get := func(cred string) (*grpc.ClientConn, error) {
-		if c, ok := conns[cred]; ok {
-			return c, nil
-		}
-		c, err := a.Dial(ctx, cred)
-		if err == nil {
-			conns[cred] = c
-		}
-		return c, err
-	}
-	probe, err := get("valid-c2")
-	if err != nil {
-		return err
-	}
-	for _, m := range msgs {
+// sendOne concretises and sends one shape message; returns ("response"|"error", detail).
+func (a *APIServer) sendOne(ctx context.Context, get func(string) (*grpc.ClientConn, error), m FuzzMsg, begin func()) (string, string, error) {
 		rnd := rand.New(rand.NewSource(m.Seed))
 		cred := m.Cred
 		if cred == "" {
@@ -247,9 +268,11 @@ func (a *APIServer) runFuzz(ctx context.Context, msgs []FuzzMsg, log *Log) error
 		}
 		conn, err := get(cred)
 		if err != nil {
-			return err
+			return "", "", err
 		}
-		log.Emit(Ev{"ev": "FuzzBegin", "id": m.ID, "method": m.Method, "shape": m.Shape})
+		if begin != nil {
+			begin()
+		}
 		cctx, cancel := context.WithTimeout(ctx, 20*time.Second)
 		var rerr error
 		detail := ""
@@ -338,6 +361,9 @@ func (a *APIServer) runFuzz(ctx context.Context, msgs []FuzzMsg, log *Log) error
 			if r, rerr = pb.NewAccountManagerClient(conn).Generate(cctx, &pb.GenerateRequest{Account: acct, Passphrase: shapeBytes(str(sh, "passphrase"), rnd),
 				Participants: uint32(shapeU64(str(sh, "participants"))), SigningThreshold: uint32(shapeU64(str(sh, "threshold")))}); rerr == nil {
 				detail = r.GetState().String()
+				if r.GetState() == pb.ResponseState_SUCCEEDED && len(r.GetPublicKey()) == 48 {
+					a.noteCreated(acct, r.GetPublicKey())
+				}
 			}
 		case "LockAccount":
 			var r *pb.LockAccountResponse
@@ -382,7 +408,7 @@ func (a *APIServer) runFuzz(ctx context.Context, msgs []FuzzMsg, log *Log) error
 			_, rerr = pb.NewDKGClient(conn).Contribute(cctx, &pb.ContributeRequest{Account: shapeStr(str(sh, "account"), false, rnd), Secret: shapeBytes(str(sh, "secret"), rnd), VerificationVector: vv})
 		default:
 			cancel()
-			return fmt.Errorf("unknown fuzz method %s", m.Method)
+			return "", "", fmt.Errorf("unknown fuzz method %s", m.Method)
 		}
 		cancel()
 		answered := "response"
@@ -392,6 +418,32 @@ func (a *APIServer) runFuzz(ctx context.Context, msgs []FuzzMsg, log *Log) error
 			if len(detail) > 120 {
 				detail = detail[:120]
 			}
+		}
+		return answered, detail, nil
+}
+
+// runFuzz sends every shape message over a real connection and probes liveness after each one.
+func (a *APIServer) runFuzz(ctx context.Context, msgs []FuzzMsg, log *Log) error {
+	conns := map[string]*grpc.ClientConn{}
+	get := func(cred string) (*grpc.ClientConn, error) {
+		if c, ok := conns[cred]; ok {
+			return c, nil
+		}
+		c, err := a.Dial(ctx, cred)
+		if err == nil {
+			conns[cred] = c
+		}
+		return c, err
+	}
+	probe, err := get("valid-c2")
+	if err != nil {
+		return err
+	}
+	for _, m := range msgs {
+		m := m
+		answered, detail, err := a.sendOne(ctx, get, m, func() { log.Emit(Ev{"ev": "FuzzBegin", "id": m.ID, "method": m.Method, "shape": m.Shape}) })
+		if err != nil {
+			return err
 		}
 		// liveness: another client's ordinary request must still be answered
 		pctx, pcancel := context.WithTimeout(ctx, 10*time.Second)
@@ -405,6 +457,101 @@ func (a *APIServer) runFuzz(ctx context.Context, msgs []FuzzMsg, log *Log) error
 	}
 	for _, c := range conns {
 		_ = c.Close()
+	}
+	return nil
+}
+
+// RunStorm: the same message classes under CONCURRENCY.  One stream creates accounts through Dirk one after the other while
+// `workers` streams keep sending shape messages (half of them signing requests that address the most recently created account by
+// public key or by name, from a permitted and from an unpermitted client).  Afterwards the daemon must still answer a fresh client.
+func (a *APIServer) RunStorm(ctx context.Context, msgs []FuzzMsg, workers, generates int, log *Log) error {
+	dial := func() func(string) (*grpc.ClientConn, error) {
+		conns := map[string]*grpc.ClientConn{}
+		return func(cred string) (*grpc.ClientConn, error) {
+			if c, ok := conns[cred]; ok {
+				return c, nil
+			}
+			c, err := a.Dial(ctx, cred)
+			if err == nil {
+				conns[cred] = c
+			}
+			return c, err
+		}
+	}
+	wctx, stop := context.WithCancel(ctx)
+	var wg sync.WaitGroup
+	var sent, unanswered int64
+	for w := 0; w < workers; w++ {
+		wg.Add(1)
+		go func(w int) {
+			defer wg.Done()
+			get := dial()
+			for i := 0; wctx.Err() == nil; i++ {
+				var m FuzzMsg
+				if w%2 == 0 || len(msgs) == 0 {
+					m = FuzzMsg{ID: fmt.Sprintf("s%d_%d", w, i), Method: "Sign", Cred: []string{"valid-c2", "valid-c1"}[(w/2)%2], Seed: int64(w*1000003 + i),
+						Shape: map[string]any{"id": []string{"key-created", "acct-created"}[i%2], "domain": "randao", "data": "len32"}}
+				} else {
+					m = msgs[(w*7919+i)%len(msgs)]
+					m.ID = fmt.Sprintf("%s_w%d_%d", m.ID, w, i)
+				}
+				_, detail, err := a.sendOne(wctx, get, m, nil)
+				if err != nil {
+					return
+				}
+				atomic.AddInt64(&sent, 1)
+				if wctx.Err() == nil && strings.Contains(detail, "DeadlineExceeded") {
+					atomic.AddInt64(&unanswered, 1)
+				}
+			}
+		}(w)
+	}
+	get := dial()
+	conn, err := get("valid-c1")
+	if err != nil {
+		stop()
+		return err
+	}
+	done := 0
+	hung := ""
+	for g := 0; g < generates; g++ {
+		gctx, cancel := context.WithTimeout(ctx, 20*time.Second)
+		name := fmt.Sprintf("W1/storm%d", g)
+		r, gerr := pb.NewAccountManagerClient(conn).Generate(gctx, &pb.GenerateRequest{Account: name, Passphrase: []byte("pass"), Participants: 1, SigningThreshold: 1})
+		cancel()
+		if gerr != nil {
+			hung = fmt.Sprintf("Generate #%d got no answer: %v", g, gerr)
+			break
+		}
+		if r.GetState() == pb.ResponseState_SUCCEEDED && len(r.GetPublicKey()) == 48 {
+			a.noteCreated(name, r.GetPublicKey())
+			done++
+		}
+	}
+	stop()
+	waited := make(chan struct{})
+	go func() { wg.Wait(); close(waited) }()
+	select {
+	case <-waited:
+	case <-time.After(30 * time.Second):
+	}
+	probe, err := a.Dial(ctx, "valid-c2")
+	alive := false
+	perrs := ""
+	if err == nil {
+		pctx, pcancel := context.WithTimeout(ctx, 10*time.Second)
+		pres, perr := pb.NewListerClient(probe).ListAccounts(pctx, &pb.ListAccountsRequest{Paths: []string{"W2"}})
+		pcancel()
+		alive = perr == nil && len(pres.GetAccounts()) == 2
+		if perr != nil {
+			perrs = perr.Error()
+		}
+		_ = probe.Close()
+	}
+	log.Emit(Ev{"ev": "Storm", "workers": workers, "generates": generates, "created": done, "sent": atomic.LoadInt64(&sent), "unanswered": atomic.LoadInt64(&unanswered),
+		"hung": hung, "alive": alive, "probe_error": perrs})
+	if !alive {
+		return fmt.Errorf("server stopped answering under concurrent load: %s %s", hung, perrs)
 	}
 	return nil
 }
